@@ -370,10 +370,10 @@ func Returns(fn *ssa.Function) []*ssa.Return {
 // StateSet is a set of abstract states 0..63.
 type StateSet uint64
 
-func (s StateSet) Has(i int) bool { return s&(1<<uint(i)) != 0 }
+func (s StateSet) Has(i int) bool     { return s&(1<<uint(i)) != 0 }
 func (s StateSet) Add(i int) StateSet { return s | (1 << uint(i)) }
-func (s StateSet) Empty() bool { return s == 0 }
-func (s StateSet) Only(i int) bool { return s == 1<<uint(i) }
+func (s StateSet) Empty() bool        { return s == 0 }
+func (s StateSet) Only(i int) bool    { return s == 1<<uint(i) }
 func (s StateSet) List() []int {
 	var out []int
 	for i := 0; i < 64; i++ {
@@ -399,7 +399,7 @@ func (s StateSet) List() []int {
 type Flow struct {
 	Fn       *ssa.Function
 	Entry    StateSet
-	Transfer func(in ssa.Instruction, s int) StateSet                    // states after in when in state s before; nil = identity
+	Transfer func(in ssa.Instruction, s int) StateSet                   // states after in when in state s before; nil = identity
 	Branch   func(iff *ssa.If, succ int, s int) (ns int, feasible bool) // optional refinement on the succ-th edge (0=true,1=false)
 	Inline   func(callee *ssa.Function) bool
 	// Tags makes the engine remember, across the return of an inlined helper, the
@@ -407,6 +407,17 @@ type Flow struct {
 	// result: `if !helper() { return }` then follows only the helper's `return
 	// false` paths.
 	Tags bool
+	// EvalBool, if set, is a value oracle: it may decide a bool / nil-able value
+	// (1 true / non-nil, 2 false / nil, 0 unknown). The engine consults it for
+	// branch conditions, for the values flowing into tracked flags and for
+	// returned values; it lets a client analyse a function under an assumption on
+	// its input (e.g. "every character of the argument is 0x20").
+	EvalBool func(v ssa.Value) int8
+	// BranchOn is Branch for a condition that is not the If's own operand: when the
+	// If tests a local flag whose value on the current path is that of an earlier
+	// comparison (`publish := len(m) > 0; ...; if publish {`), the engine reports the
+	// branch as a branch on that comparison (succ 0: cond is true, 1: false).
+	BranchOn func(cond ssa.Value, succ int, s int) (ns int, feasible bool)
 
 	memo  map[flowKey][]code
 	stack map[*ssa.Function]bool
@@ -426,6 +437,9 @@ type FlowResult struct {
 	After  map[ssa.Instruction]StateSet
 	// Exit is the join of the states at the normal returns of the root function.
 	Exit StateSet
+	// RetFlag gives, for each return, the states split by what is known of the last
+	// returned value on the path: 1 true / non-nil, 2 false / nil, 0 unknown.
+	RetFlag map[*ssa.Return][3]StateSet
 }
 
 // code is one element of the engine's internal lattice: an abstract state of
@@ -482,6 +496,69 @@ func (cs codes) states() StateSet {
 type flagInfo struct {
 	slot map[*ssa.Phi]int // tracked phis -> slot 0/1
 	all  [2][]*ssa.Phi
+	// leaves: non-constant bool values flowing into a flag; a flag value of 3+i
+	// means "equal to leaves[i] on this path"
+	leaves []ssa.Value
+}
+
+func (fi *flagInfo) leafIndex(v ssa.Value) int8 {
+	for i, l := range fi.leaves {
+		if l == v {
+			return int8(3 + i)
+		}
+	}
+	if len(fi.leaves) >= 100 {
+		return 0
+	}
+	fi.leaves = append(fi.leaves, v)
+	return int8(3 + len(fi.leaves) - 1)
+}
+
+// knownOnEdge: the bool value e is decided on the CFG edge pred->to because
+// that edge is, or is dominated by, a branch on e itself.
+func knownOnEdge(e ssa.Value, pred, to *ssa.BasicBlock) int8 {
+	w, neg := stripNot(e)
+	if w.Referrers() == nil {
+		return 0
+	}
+	res := func(succ int, n2 bool) int8 {
+		truth := (succ == 0) != n2 != neg
+		if truth {
+			return 1
+		}
+		return 2
+	}
+	var visit func(v ssa.Value, n2 bool) int8
+	visit = func(v ssa.Value, n2 bool) int8 {
+		if v.Referrers() == nil {
+			return 0
+		}
+		for _, rf := range *v.Referrers() {
+			switch x := rf.(type) {
+			case *ssa.UnOp:
+				if x.Op == token.NOT {
+					if r := visit(x, !n2); r != 0 {
+						return r
+					}
+				}
+			case *ssa.If:
+				d := x.Block()
+				if len(d.Succs) != 2 || d.Succs[0] == d.Succs[1] {
+					continue
+				}
+				for i, sc := range d.Succs {
+					if d == pred && sc == to {
+						return res(i, n2)
+					}
+					if len(sc.Preds) == 1 && sc.Dominates(pred) {
+						return res(i, n2)
+					}
+				}
+			}
+		}
+		return 0
+	}
+	return visit(w, false)
 }
 
 func boolConst(v ssa.Value) (bool, bool) {
@@ -500,6 +577,93 @@ func stripNot(c ssa.Value) (ssa.Value, bool) {
 		}
 		c, neg = u.X, !neg
 	}
+}
+
+// flagKind: 1 = bool phi, 2 = phi of a nil-able type (tracked as nil / non-nil).
+func flagKind(p *ssa.Phi) int {
+	switch t := p.Type().Underlying().(type) {
+	case *types.Basic:
+		if t.Kind() == types.Bool {
+			return 1
+		}
+	case *types.Pointer, *types.Interface, *types.Slice, *types.Map, *types.Signature, *types.Chan:
+		return 2
+	}
+	return 0
+}
+
+// flagTest: the If branches on a tracked-phi candidate: `if p`, `if !p`,
+// `if p != nil`, `if p == nil`; neg reports that the true edge means the flag
+// is false / nil.
+func flagTest(iff *ssa.If) (*ssa.Phi, bool, bool) {
+	c, neg := stripNot(iff.Cond)
+	if q, ok := c.(*ssa.Phi); ok && flagKind(q) == 1 {
+		return q, neg, true
+	}
+	if bo, ok := c.(*ssa.BinOp); ok && (bo.Op == token.EQL || bo.Op == token.NEQ) {
+		x, y := bo.X, bo.Y
+		if k, ok := x.(*ssa.Const); ok && k.IsNil() {
+			x, y = y, x
+		}
+		if k, ok := y.(*ssa.Const); ok && k.IsNil() {
+			if q, ok := x.(*ssa.Phi); ok && flagKind(q) == 2 {
+				if bo.Op == token.EQL {
+					neg = !neg
+				}
+				return q, neg, true
+			}
+		}
+	}
+	return nil, false, false
+}
+
+// flagLeaf: the value a non-phi incoming edge gives the flag: 1 true /
+// non-nil, 2 false / nil, 0 unknown. pred is the block the edge comes from.
+func flagLeaf(e ssa.Value, pred *ssa.BasicBlock) int8 {
+	if v, ok := boolConst(e); ok {
+		if v {
+			return 1
+		}
+		return 2
+	}
+	switch x := e.(type) {
+	case *ssa.Const:
+		if x.IsNil() {
+			return 2
+		}
+	case *ssa.Alloc, *ssa.MakeInterface, *ssa.MakeClosure, *ssa.MakeMap, *ssa.MakeSlice, *ssa.MakeChan, *ssa.Function:
+		return 1
+	case *ssa.Call:
+		switch CalleeName(x) {
+		case "errors.New", "fmt.Errorf":
+			return 1
+		}
+	case *ssa.Extract:
+		// the value of a comma-ok type assertion, used under its ok edge
+		if ta, ok := x.Tuple.(*ssa.TypeAssert); ok && x.Index == 0 && ta.CommaOk && pred != nil {
+			// only for interface targets: a typed nil pointer passes a pointer assertion
+			if _, isIface := x.Type().Underlying().(*types.Interface); !isIface {
+				return 0
+			}
+			if ta.Referrers() != nil {
+				for _, rf := range *ta.Referrers() {
+					okx, isEx := rf.(*ssa.Extract)
+					if !isEx || okx.Index != 1 || okx.Referrers() == nil {
+						continue
+					}
+					for _, r2 := range *okx.Referrers() {
+						if iff, ok := r2.(*ssa.If); ok && len(iff.Block().Succs) == 2 {
+							t := iff.Block().Succs[0]
+							if t != iff.Block().Succs[1] && len(t.Preds) == 1 && t.Dominates(pred) {
+								return 1
+							}
+						}
+					}
+				}
+			}
+		}
+	}
+	return 0
 }
 
 func blockReaches(a, b *ssa.BasicBlock) bool {
@@ -544,7 +708,7 @@ func (f *Flow) flagsOf(fn *ssa.Function) *flagInfo {
 			if !ok {
 				break
 			}
-			if bt, ok := p.Type().Underlying().(*types.Basic); ok && bt.Kind() == types.Bool {
+			if flagKind(p) != 0 {
 				parent[p] = p
 				phis = append(phis, p)
 			}
@@ -579,7 +743,7 @@ func (f *Flow) flagsOf(fn *ssa.Function) *flagInfo {
 			}
 			blocks[m.Block()] = true
 			for _, e := range m.Edges {
-				if _, ok := boolConst(e); ok {
+				if flagLeaf(e, nil) != 0 {
 					hasConst = true
 				}
 			}
@@ -589,8 +753,7 @@ func (f *Flow) flagsOf(fn *ssa.Function) *flagInfo {
 				continue
 			}
 			if iff, ok := b.Instrs[len(b.Instrs)-1].(*ssa.If); ok {
-				c, _ := stripNot(iff.Cond)
-				if q, ok := c.(*ssa.Phi); ok && parent[q] != nil {
+				if q, _, ok := flagTest(iff); ok && parent[q] != nil {
 					for _, m := range members {
 						if m == q {
 							tested = true
@@ -599,7 +762,21 @@ func (f *Flow) flagsOf(fn *ssa.Function) *flagInfo {
 				}
 			}
 		}
-		if !hasConst || !tested || clash || n >= 2 {
+		for _, b := range fn.Blocks {
+			if len(b.Instrs) == 0 {
+				continue
+			}
+			if ret, ok := b.Instrs[len(b.Instrs)-1].(*ssa.Return); ok && len(ret.Results) > 0 {
+				if q, ok := ret.Results[len(ret.Results)-1].(*ssa.Phi); ok {
+					for _, m := range members {
+						if m == q {
+							tested = true
+						}
+					}
+				}
+			}
+		}
+		if (!hasConst && f.EvalBool == nil && f.BranchOn == nil) || !tested || clash || n >= 2 {
 			continue
 		}
 		for _, m := range members {
@@ -648,8 +825,41 @@ func (f *Flow) callResultCond(cond ssa.Value) (isCall bool, neg bool) {
 	return cal != nil && f.Inline != nil && f.Inline(cal), neg
 }
 
+// valueOf: what is known of v at the end of block b for code c.
+func (f *Flow) valueOf(v ssa.Value, c code, fi *flagInfo, b *ssa.BasicBlock) int8 {
+	if w, neg := stripNot(v); neg {
+		if r := f.valueOf(w, c, fi, b); r != 0 {
+			return 3 - r
+		}
+		return 0
+	}
+	if q, ok := v.(*ssa.Phi); ok {
+		if k, ok := fi.slot[q]; ok && fi.current(q, b) {
+			if fv := c.f[k]; fv < 3 {
+				return fv
+			} else if f.EvalBool != nil {
+				return f.EvalBool(fi.leaves[fv-3])
+			}
+			return 0
+		}
+	}
+	if fv := flagLeaf(v, nil); fv != 0 {
+		return fv
+	}
+	if f.EvalBool != nil {
+		w, neg := stripNot(v)
+		if ev := f.EvalBool(w); ev != 0 {
+			if neg {
+				return 3 - ev
+			}
+			return ev
+		}
+	}
+	return 0
+}
+
 func (f *Flow) Run() *FlowResult {
-	f.res = &FlowResult{In: map[*ssa.BasicBlock]StateSet{}, Before: map[ssa.Instruction]StateSet{}, After: map[ssa.Instruction]StateSet{}}
+	f.res = &FlowResult{In: map[*ssa.BasicBlock]StateSet{}, Before: map[ssa.Instruction]StateSet{}, After: map[ssa.Instruction]StateSet{}, RetFlag: map[*ssa.Return][3]StateSet{}}
 	f.memo = map[flowKey][]code{}
 	f.stack = map[*ssa.Function]bool{}
 	f.flags = map[*ssa.Function]*flagInfo{}
@@ -676,6 +886,15 @@ func (f *Flow) runFn(fn *ssa.Function, entry codes, depth int) codes {
 	runInstrs := func(b *ssa.BasicBlock, cur codes) codes {
 		for _, ins := range b.Instrs {
 			res.Before[ins] |= cur.states()
+			if ret, ok := ins.(*ssa.Return); ok && len(ret.Results) > 0 {
+				last := ret.Results[len(ret.Results)-1]
+				rf := res.RetFlag[ret]
+				for _, c := range cur {
+					fv := f.valueOf(last, c, fi, b)
+					rf[fv] = rf[fv].Add(int(c.s))
+				}
+				res.RetFlag[ret] = rf
+			}
 			var nxt codes
 			for _, c := range cur {
 				var o StateSet
@@ -691,12 +910,9 @@ func (f *Flow) runFn(fn *ssa.Function, entry codes, depth int) codes {
 						nt = c.tag
 					case *ssa.Return:
 						if depth > 0 && len(x.Results) > 0 {
-							if v, ok := boolConst(x.Results[len(x.Results)-1]); ok {
-								if v {
-									nt = 1
-								} else {
-									nt = 2
-								}
+							last := x.Results[len(x.Results)-1]
+							if bt, ok := last.Type().Underlying().(*types.Basic); ok && bt.Kind() == types.Bool {
+								nt = f.valueOf(last, c, fi, b)
 							}
 						}
 					}
@@ -746,8 +962,7 @@ func (f *Flow) runFn(fn *ssa.Function, entry codes, depth int) codes {
 		// the branch tests a tracked local flag
 		flagSlot, flagNeg := -1, false
 		if iff != nil {
-			c, neg := stripNot(iff.Cond)
-			if q, ok := c.(*ssa.Phi); ok {
+			if q, neg, ok := flagTest(iff); ok {
 				if k, ok := fi.slot[q]; ok && fi.current(q, b) {
 					flagSlot, flagNeg = k, neg
 				}
@@ -759,6 +974,16 @@ func (f *Flow) runFn(fn *ssa.Function, entry codes, depth int) codes {
 			if iff != nil && f.Tags {
 				isCall, neg = f.callResultCond(iff.Cond)
 			}
+			ev := int8(0)
+			if iff != nil && f.EvalBool != nil {
+				w, n2 := stripNot(iff.Cond)
+				if ev = f.EvalBool(w); ev != 0 && n2 {
+					ev = 3 - ev
+				}
+			}
+			if ev != 0 && (ev == 1) != (i == 0) {
+				continue
+			}
 			for _, c := range cur {
 				if iff != nil {
 					if isCall && c.tag != 0 {
@@ -769,7 +994,27 @@ func (f *Flow) runFn(fn *ssa.Function, entry codes, depth int) codes {
 					}
 					if flagSlot >= 0 {
 						truth := (i == 0) != flagNeg
-						if v := c.f[flagSlot]; v != 0 && (v == 1) != truth {
+						v := c.f[flagSlot]
+						if v >= 3 {
+							// the flag holds the value of an earlier comparison: branch on that comparison
+							leaf := fi.leaves[v-3]
+							if f.EvalBool != nil {
+								if ev := f.EvalBool(leaf); ev != 0 && (ev == 1) != truth {
+									continue
+								}
+							}
+							if f.BranchOn != nil {
+								sc2 := 1
+								if truth {
+									sc2 = 0
+								}
+								ns, ok := f.BranchOn(leaf, sc2, int(c.s))
+								if !ok {
+									continue
+								}
+								c.s = int8(ns)
+							}
+						} else if v != 0 && (v == 1) != truth {
 							continue
 						}
 						if truth {
@@ -813,14 +1058,25 @@ func (f *Flow) runFn(fn *ssa.Function, entry codes, depth int) codes {
 					}
 					e := p.Edges[j]
 					var set func(c *code)
-					if v, ok := boolConst(e); ok {
-						set = func(c *code) {
-							if v {
-								c.f[k] = 1
-							} else {
-								c.f[k] = 2
+					v := flagLeaf(e, b)
+					if v == 0 && f.EvalBool != nil {
+						if _, isPhi := e.(*ssa.Phi); !isPhi {
+							w, n2 := stripNot(e)
+							if v = f.EvalBool(w); v != 0 && n2 {
+								v = 3 - v
 							}
 						}
+					}
+					if _, isPhi := e.(*ssa.Phi); v == 0 && !isPhi && flagKind(p) == 1 {
+						if v = knownOnEdge(e, b, sc); v == 0 {
+							w, n2 := stripNot(e)
+							if !n2 {
+								v = fi.leafIndex(w)
+							}
+						}
+					}
+					if v != 0 {
+						set = func(c *code) { c.f[k] = v }
 					} else if q, ok := e.(*ssa.Phi); ok && fi.slot[q] == k && q != p && fi.current(q, b) {
 						if _, tracked := fi.slot[q]; tracked {
 							set = func(c *code) {}
@@ -862,8 +1118,8 @@ func (f *Flow) runFn(fn *ssa.Function, entry codes, depth int) codes {
 
 // CondInfo describes a recognised If condition.
 type CondInfo struct {
-	Kind   string    // "boolfield", "nilcmp", "constcmp", "lencmp", "other"
-	Field  Field     // for boolfield / comparisons on a loaded field
+	Kind   string // "boolfield", "nilcmp", "constcmp", "lencmp", "other"
+	Field  Field  // for boolfield / comparisons on a loaded field
 	HasFld bool
 	X      ssa.Value // compared value (stripped)
 	Op     token.Token
